@@ -11,7 +11,7 @@ Oracle: vf.texpr.ref_eval - the same operations applied with the `operator` modu
 from hypothesis import strategies as st
 
 import glom
-from glom import PathAccessError, GlomError, Path
+from glom import PathAccessError, GlomError, Path, T
 
 from ..runner import Sub, Mismatch
 from .. import runner as runner_mod
@@ -59,7 +59,9 @@ def boom(*a, **kw):
 def make_target(r):
     echo = Echo()
     t = {'n': r['n'], 'm': r['m'], 'xs': list(r['xs']), 'd': dict(r['d']), 's': r['s'], 'f': r['f'],
-         'nil': None, 'echo': echo, 'boom': boom, 'tup': tuple(r['xs'][:2])}
+         'nil': None, 'echo': echo, 'boom': boom, 'tup': tuple(r['xs'][:2]),
+         # a value that happens to be a glom expression: data, to be passed on as it is
+         'tmpl': T['n']}
     t['o'] = tg.Obj(a=r['m'], xs=t['xs'], echo=echo, d=t['d'], boom=boom)
     return t, echo
 
@@ -85,7 +87,7 @@ def _lit_for_echo(draw, target, depth=1):
     if k == 3:
         return ['none']
     if k == 4:
-        return ['T', 'T', [['[', ['s', draw(st.sampled_from(['n', 'xs', 'd', 's', 'o']))]]]]
+        return ['T', 'T', [['[', ['s', draw(st.sampled_from(['n', 'xs', 'd', 's', 'o', 'tmpl', 'xs', 'd']))]]]]
     if k == 5:
         return ['Spec', ['T', 'T', [['[', ['s', draw(st.sampled_from(['n', 'm', 'f']))]]]]]
     if k == 6:
@@ -290,6 +292,12 @@ def gen(draw):
             except tx.RefFail:
                 failed = True
                 cur = None
+    if draw(st.sampled_from(range(12))) == 0:
+        # a callable of the target called with objects of the target, resolved by nested T / Spec arguments
+        own = lambda: ['T', 'T', [['[', ['s', draw(st.sampled_from(['xs', 'd', 'o', 'tmpl']))]]]]
+        args = [own() if draw(st.booleans()) else ['Spec', own()] for _ in range(draw(st.integers(1, 2)))]
+        kws = [['p', own()]] if draw(st.booleans()) else []
+        steps = [draw(st.sampled_from([[['[', ['s', 'echo']]], [['[', ['s', 'o']], ['.', 'echo']]]))][0] + [['(', args, kws]]
     return {'target': trec, 'steps': steps, 'twin_first': draw(st.sampled_from([False, False, True]))}
 
 
@@ -307,22 +315,37 @@ def _kinds(steps):
     return ks
 
 
+_KEEPALIVE = []
+
+
 def _owned(target):
+    """ids of the objects reachable from the target (the objects are kept alive until the next case, so that no id
+    of a transient child object is re-used by something created later)"""
     ids = set()
     stack = [target]
+    keep = []
     while stack:
         v = stack.pop()
         if id(v) in ids:
             continue
         ids.add(id(v))
+        keep.append(v)
         for _, c in tg.children(v):
             stack.append(c)
+    _KEEPALIVE.append(keep)
+    del _KEEPALIVE[:-4]
     return ids
 
 
 def equalish(a, b):
     if type(a) is not type(b):
         return False
+    if isinstance(a, type(T)):
+        return repr(a) == repr(b)       # (T expressions have no ==; the two targets hold separately built ones)
+    if type(a) in (tuple, list) and 'T[' in repr(a):
+        return len(a) == len(b) and all(equalish(x, y) for x, y in zip(a, b))
+    if type(a) is dict and 'T[' in repr(a):
+        return list(a) == list(b) and all(equalish(a[k_], b[k_]) for k_ in a)
     if isinstance(a, float):
         return a == b or (a != a and b != b)
     if isinstance(a, tuple) and len(a) == 2 and isinstance(a[1], dict) and isinstance(a[0], tuple):
@@ -332,7 +355,7 @@ def equalish(a, b):
     if type(a).__name__ in ('dict_keys',):
         return list(a) == list(b)
     if callable(a) and hasattr(a, '__self__'):
-        return a.__name__ == b.__name__ and type(a.__self__) is type(b.__self__) and a.__self__ == b.__self__
+        return a.__name__ == b.__name__ and type(a.__self__) is type(b.__self__) and equalish(a.__self__, b.__self__)
     return a == b
 
 
@@ -375,6 +398,7 @@ def check(recipe, ctx):
                 pass
     # reference on its own copy of the target (echo logs are per target)
     rt, recho = make_target(recipe['target'])
+    o_rt = _owned(rt)           # (before any call: the echo's log will hold whatever it is passed)
     nested_fail = None
     try:
         exp = ('ok', tx.ref_eval(rt, steps, rt))
@@ -383,6 +407,7 @@ def check(recipe, ctx):
         nested_fail = rf.nested
     gt, gecho = make_target(recipe['target'])
     spec = tx.build_t('T', steps, gt)
+    o_gt = _owned(gt)
     snap = tg.snapshot(gt)
     ctx.label('exp-' + exp[0], 'ops-%d' % min(len(steps), 4))
     if exp[0] == 'err' and any(tx.has_nested([s_]) for s_ in steps[exp[1] + 1:]):
@@ -410,10 +435,26 @@ def check(recipe, ctx):
         # a result that is an object of the target must be that very object
         # (not asserted through call steps: arguments are evaluated in argument mode, which
         # rebuilds list/dict values - equal, not identical; see DESIGN.md section 6)
-        if id(exp[1]) in _owned(rt) and not isinstance(exp[1], tg._ATOM) and not any(s_[0] == '(' for s_ in steps):
+        if id(exp[1]) in o_rt and not isinstance(exp[1], tg._ATOM):
             # map by position: same construction order in both targets -> compare by path
-            if id(got) not in _owned(gt):
+            if id(got) not in o_gt:
                 raise Mismatch('copied-object', '%s: result %r is not the object held by the target' % (where, got))
+        # an argument that a nested T resolved to an object of the target reaches the callee as that very object
+        if isinstance(exp[1], tuple) and len(exp[1]) == 2 and isinstance(exp[1][0], tuple) and isinstance(exp[1][1], dict) \
+                and isinstance(got, tuple) and len(got) == 2 and isinstance(got[0], tuple):
+            last = steps[-1]
+            pairs = []
+            if last[0] == '(' and len(last[1]) == len(exp[1][0]):
+                # only arguments written as a nested T / Spec(T): a container LITERAL in argument position is a template
+                # that is rebuilt for the call (also when the test harness put an object of the target there)
+                pairs += [(a, b) for r_, a, b in zip(last[1], exp[1][0], got[0]) if r_[0] in ('T', 'Spec')]
+                pairs += [(exp[1][1][k_], got[1].get(k_)) for k_, r_ in last[2] if r_[0] in ('T', 'Spec') and k_ in exp[1][1]]
+            for x_ref, x_got in pairs:
+                if id(x_ref) in o_rt and not isinstance(x_ref, tg._ATOM) and id(x_got) not in o_gt:
+                    ctx.label('argument-identity-checked')
+                    raise Mismatch('copied-argument', '%s: the callee received a copy of %r, not the object held by the target' % (where, x_got))
+                if id(x_ref) in o_rt and not isinstance(x_ref, tg._ATOM):
+                    ctx.label('argument-identity-checked')
     else:
         _, k, E, kind = exp
         ctx.label('fail-' + kind, 'fail-at-%s' % ('0' if k == 0 else 'k>=1'))
@@ -447,6 +488,13 @@ def check(recipe, ctx):
         else:
             if not isinstance(err, type(E)):
                 raise Mismatch('class-lost', '%s: step %d raises %r, glom raised %s' % (where, k, E, type(err).__mro__))
+            if kind == 'call' and isinstance(E, TypeError) and str(E).endswith('is not callable'):
+                # calling a value that is not callable (None, a number): the error is about THAT value
+                ctx.label('call-of-non-callable')
+                shown = err.args[0] if err.args else ''
+                if shown != E.args[0]:
+                    raise Mismatch('wrong-callee', '%s: step %d calls a non-callable value (%s); glom reports %r'
+                                   % (where, k, E.args[0], shown))
     # argument pass-through: echo must have been called with the same arguments in both worlds
     if len(recho.calls) != len(gecho.calls):
         raise Mismatch('call-count', '%s: echo called %d times by the reference, %d times by glom'
@@ -474,5 +522,5 @@ def check(recipe, ctx):
 
 SUBS = [
     Sub('replay', check, gen=gen, quick=8000, thorough=20000,
-        floors={'exp-ok': 0.15, 'exp-err': 0.15, 'nested-T-arg': 0.05, 'nested-arg-after-failure': 0.05, 'fail-in-nested-arg': 0.01, 'op//': 0.02, 'fail-at-k>=1': 0.1, 'twin-recorded-first': 0.06}),
+        floors={'exp-ok': 0.15, 'exp-err': 0.15, 'nested-T-arg': 0.05, 'nested-arg-after-failure': 0.05, 'fail-in-nested-arg': 0.01, 'op//': 0.02, 'fail-at-k>=1': 0.1, 'twin-recorded-first': 0.06, 'argument-identity-checked': 0.02, 'call-of-non-callable': 0.01}),
 ]
